@@ -193,14 +193,14 @@ def _gen_mux(r, idx):
     if r.random() < 0.35:
       ops.append(['adv', r.choice([30 * TPS, 41 * TPS, 46 * TPS, 90 * TPS])])
   faults = []
-  for _ in range(r.choice([0, 1, 1, 1, 2])):
-    op = r.choice(['connect', 'send', 'send', 'recv', 'recv'])
+  for _ in range(r.choice([0, 0, 1, 1, 1, 2])):
+    op = r.choice(['connect', 'send', 'send', 'send', 'recv', 'recv', 'recv'])
     if op == 'connect':
       faults.append({'op': op, 'nth': 1, 'what': r.choice(CONNECT_FAULTS[:5])})
     elif op == 'send':
-      faults.append({'op': op, 'nth': r.choice([1, 2, 3, 4, 5]), 'what': r.choice(SEND_FAULTS)})
+      faults.append({'op': op, 'nth': r.choice([1, 2, 3, 4, 5, 6, 8]), 'what': r.choice(SEND_FAULTS)})
     else:
-      faults.append({'op': op, 'nth': r.choice([1, 2, 3, 4, 5, 6, 7, 8]), 'what': r.choice(RECV_FAULTS)})
+      faults.append({'op': op, 'nth': r.choice([1, 2, 3, 4, 5, 6, 7, 8, 9, 10, 12, 14]), 'what': r.choice(RECV_FAULTS)})
   ops.append(['adv', 8])
   ops.append(['req', 90, None, 1])
   ops.append(['adv', 8])
@@ -266,14 +266,14 @@ def _grid_mux():
 def gen_cases(tier, seed):
   quick = tier == 'quick'
   out = []
-  for i in range(170 if quick else 2500):
+  for i in range(450 if quick else 8000):
     out.append(_gen_serial(C.case_rng(seed, PID + 'ser', i), i))
-  for i in range(170 if quick else 2500):
+  for i in range(450 if quick else 8000):
     out.append(_gen_mux(C.case_rng(seed, PID + 'mux', i), i))
   gs, gm = _grid_serial(), _grid_mux()
   if quick:
     r = C.case_rng(seed, PID + 'grid', 0)
-    out += r.sample(gs, 40) + r.sample(gm, 40)
+    out += r.sample(gs, 150) + r.sample(gm, 150)
   else:
     out += gs + gm
   return out
@@ -806,6 +806,16 @@ def stats(cases, obs):
         if e[0] == 'post':
           posts['%s/%s' % (c['kind'], e[2])] += 1
     nfail_cases += had
-  return {'model_labels_exercised': dict(sorted(lab.items())), 'connection_failures_injected': dict(sorted(fail.items())),
+  skipped = 0
+  for c, o in zip(cases, obs):
+    if isinstance(o, dict) and 'slices' in o and c['kind'] == 'mux':
+      for sl in o['slices']:
+        ev = sl['ev']
+        for i, e in enumerate(ev):
+          if e[0] == 'q' and e[1] == 'get' and e[2] == 2:
+            nxt = ev[i + 1] if i + 1 < len(ev) else None
+            if nxt is None or not (nxt[0] == 'w' and nxt[1] == 'write-begin'):
+              skipped += 1
+  return {'mux_frames_dropped_after_deadline': skipped, 'model_labels_exercised': dict(sorted(lab.items())), 'connection_failures_injected': dict(sorted(fail.items())),
           'messages_by_kind': dict(sorted(posts.items())), 'cases_with_connection_failure': nfail_cases,
           'greenlet_crashes_observed': crashes}
